@@ -22,6 +22,8 @@ static long counter = 0;
 static long crash_at = -1;
 static long fail_at = -1;
 static long fail_at2 = -1;
+static long corrupt_at = 0;          /* SY_CORRUPT_AT=k: the k-th mutating call, if it writes data, is performed and one byte of what it wrote is flipped */
+static __thread int corrupt_now = 0;
 static int fail_errno = 5;
 static int log_fd = -2;
 static char root[PATH_MAX];
@@ -40,6 +42,8 @@ __attribute__((constructor)) static void init(void) {
     const char *fa = getenv("SY_FAIL_AT");
     fail_at = fa ? atol(fa) : 0;
     { const char *c = fa ? strchr(fa, ',') : NULL; fail_at2 = c ? atol(c + 1) : 0; }   /* SY_FAIL_AT=k1,k2: two faults */
+    const char *ca = getenv("SY_CORRUPT_AT");
+    corrupt_at = ca ? atol(ca) : 0;
     const char *fe = getenv("SY_FAIL_ERRNO");
     fail_errno = fe ? atoi(fe) : EIO;
     const char *l = getenv("SY_CRASH_LOG");
@@ -86,12 +90,34 @@ static int hit(const char *name, const char *p, const char *q) {
         if (log_fd >= 0) syscall(SYS_write, log_fd, "KILLED\n", 7);
         syscall(SYS_exit_group, 137);
     }
+    if (corrupt_at > 0 && k == corrupt_at && name[0] == 'w') {          /* only a data call (write / copy_file_range) can be corrupted */
+        if (log_fd >= 0) syscall(SYS_write, log_fd, "CORRUPTED\n", 10);
+        corrupt_now = 1;
+    }
     if ((fail_at > 0 && k == fail_at) || (fail_at2 > 0 && k == fail_at2)) {
         if (log_fd >= 0) syscall(SYS_write, log_fd, "FAILED\n", 7);
         errno = fail_errno;
         return 1;
     }
     return 0;
+}
+
+/* silent corruption for C10: after the data call, flip one byte in the middle of what it has just written to fd */
+static void flip_written(int fd, ssize_t r) {
+    if (!corrupt_now) return;
+    if (r <= 0) return;                       /* a probe or a failed call: the next data call of this thread takes it */
+    corrupt_now = 0;
+    off_t end = lseek(fd, 0, SEEK_CUR);
+    if (end < r) return;
+    off_t at = end - r + r / 2;
+    char pb[PATH_MAX];
+    const char *p = fd_path(fd, pb);            /* the data fd is usually write-only: a second descriptor through the raw system call */
+    if (!p) return;
+    int fd2 = (int)syscall(SYS_openat, AT_FDCWD, p, O_RDWR | O_CLOEXEC, 0);
+    if (fd2 < 0) return;
+    unsigned char c;
+    if (pread(fd2, &c, 1, at) == 1) { c ^= 0x5A; (void)!pwrite(fd2, &c, 1, at); }
+    syscall(SYS_close, fd2);
 }
 
 #define REAL(name) static __typeof__(name) *real = NULL; if (!real) real = (__typeof__(name) *)dlsym(RTLD_NEXT, #name)
@@ -155,10 +181,10 @@ int removexattr(const char *p, const char *n) { REAL(removexattr); char b[PATH_M
 int lremovexattr(const char *p, const char *n) { REAL(lremovexattr); char b[PATH_MAX]; if (hit("xattr", at_path(AT_FDCWD, p, b), NULL)) return -1; return real(p, n); }
 int fremovexattr(int fd, const char *n) { REAL(fremovexattr); char b[PATH_MAX]; if (hit("xattr", fd_path(fd, b), NULL)) return -1; return real(fd, n); }
 
-ssize_t write(int fd, const void *buf, size_t n) { REAL(write); if (fd > 2 && fd != log_fd) { char b[PATH_MAX]; const char *p = fd_path(fd, b); if (under_root(p)) if (hit("write", p, NULL)) return -1; } return real(fd, buf, n); }
+ssize_t write(int fd, const void *buf, size_t n) { REAL(write); if (fd > 2 && fd != log_fd) { char b[PATH_MAX]; const char *p = fd_path(fd, b); if (under_root(p)) if (hit("write", p, NULL)) return -1; } ssize_t r = real(fd, buf, n); flip_written(fd, r); return r; }
 ssize_t pwrite(int fd, const void *buf, size_t n, off_t o) { REAL(pwrite); char b[PATH_MAX]; if (hit("write", fd_path(fd, b), NULL)) return -1; return real(fd, buf, n, o); }
 ssize_t pwrite64(int fd, const void *buf, size_t n, off64_t o) { REAL(pwrite64); char b[PATH_MAX]; if (hit("write", fd_path(fd, b), NULL)) return -1; return real(fd, buf, n, o); }
 ssize_t writev(int fd, const struct iovec *v, int c) { REAL(writev); if (fd > 2) { char b[PATH_MAX]; const char *p = fd_path(fd, b); if (under_root(p)) if (hit("write", p, NULL)) return -1; } return real(fd, v, c); }
-ssize_t copy_file_range(int fi, off64_t *oi, int fo, off64_t *oo, size_t n, unsigned int f) { REAL(copy_file_range); char b[PATH_MAX]; if (hit("write", fd_path(fo, b), NULL)) return -1; return real(fi, oi, fo, oo, n, f); }
+ssize_t copy_file_range(int fi, off64_t *oi, int fo, off64_t *oo, size_t n, unsigned int f) { REAL(copy_file_range); char b[PATH_MAX]; if (hit("write", fd_path(fo, b), NULL)) return -1; ssize_t r = real(fi, oi, fo, oo, n, f); if (!oo) flip_written(fo, r); return r; }
 ssize_t sendfile(int fo, int fi, off_t *o, size_t n) { static ssize_t (*real)(int, int, off_t *, size_t) = NULL; if (!real) real = dlsym(RTLD_NEXT, "sendfile"); char b[PATH_MAX]; if (hit("write", fd_path(fo, b), NULL)) return -1; return real(fo, fi, o, n); }
 ssize_t sendfile64(int fo, int fi, off64_t *o, size_t n) { static ssize_t (*real)(int, int, off64_t *, size_t) = NULL; if (!real) real = dlsym(RTLD_NEXT, "sendfile64"); char b[PATH_MAX]; if (hit("write", fd_path(fo, b), NULL)) return -1; return real(fo, fi, o, n); }
